@@ -202,8 +202,10 @@ theorem runAction_start (M : Matcher) (cfg : Cfg) (s : AState) (ops : List Op)
       case unput =>
         rw [ih']; split <;> simp
       case input =>
+        generalize hs' : (if cfg.logReads = true then s.noteNeed 1 s.curBuf.pending.length else s) = s'
+        have hst : s'.start = s.start := by rw [← hs']; split <;> rfl
         split
-        · exact inputOp_start cfg s _
-        · rw [ih']; exact inputOp_start cfg s _
+        · rw [inputOp_start]; exact hst
+        · rw [ih', inputOp_start]; exact hst
 
 end FlexVerif
